@@ -6,13 +6,19 @@ the registrations) and the two answers compared.
 expression := ["S", v, u, c|None] | ["Sc", c] | ["Scu", c, u] | ["A", kind, [v...], u, c|None]
             | ["FA", d, [v...], u] | ["FS", number, [n, d]|None, u, c|None]
             | ["Q", u, c|None, caption|None] | ["Qn", c] | ["Qd", [[c, u, e]...]]
+            | ["Sq", quantity-expr, v] | ["Aq", quantity-expr, kind, [v...]]
             | ["bin", op, e1, e2] | ["num", op, e, k, "l"|"r"] | ["pow", e, n]
             | ["m", e, method, [json args]] | ["mk", e, method, {json kwargs}]
             | ["db", method, [json args]] | ["dbl", method, [json args]]  (dbl: list(result))
+            | ["db2", method, [json args]] | ["db2l", ...]   (the same on the second database instance)
             | ["val", scalar-expr]   (ScalarMinMaxValidator message)
 """
 import operator
 from collections import OrderedDict
+
+# a second, independent UnitDatabase instance that lives next to the singleton (set by the C15
+# profile at world set-up): queries against it must not be influenced by what happens to the other
+OTHER = {"db": None}
 
 OPS = {
     "add": operator.add,
@@ -62,6 +68,12 @@ def evaluate(e):
     if tag == "Qd":
         od = OrderedDict((c, [un, ex]) for c, un, ex in e[1])
         return u.Quantity.CreateDerived(od)
+    if tag == "Sq":  # a Scalar built on an explicitly requested (possibly derived) quantity
+        return u.Scalar(evaluate(e[1]), e[2])
+    if tag == "Aq":
+        _, qe, kind, vals = e
+        V = list(vals) if kind == "L" else tuple(vals) if kind == "T" else numpy.array(vals, dtype="float64")
+        return u.Array(evaluate(qe), V)
     if tag == "bin":
         return OPS[e[1]](evaluate(e[2]), evaluate(e[3]))
     if tag == "num":
@@ -78,6 +90,10 @@ def evaluate(e):
         return getattr(UnitDatabase.GetSingleton(), e[1])(*e[2])
     if tag == "dbl":
         return list(getattr(UnitDatabase.GetSingleton(), e[1])(*e[2]))
+    if tag == "db2":
+        return getattr(OTHER["db"], e[1])(*e[2])
+    if tag == "db2l":
+        return list(getattr(OTHER["db"], e[1])(*e[2]))
     if tag == "val":
         from barril.units.scalar_validation.scalar_min_max_validator import ScalarMinMaxValidator
 
@@ -91,12 +107,18 @@ def label(e):
         return "%s.%s" % (label(e[1]), e[2])
     if tag in ("db", "dbl"):
         return "db." + e[1]
+    if tag in ("db2", "db2l"):
+        return "db2." + e[1]
     if tag == "bin":
         return "bin.%s(%s,%s)" % (e[1], label(e[2]), label(e[3]))
     if tag == "num":
         return "num.%s(%s)" % (e[1], label(e[2]))
     if tag == "pow":
         return "pow(%s)" % label(e[1])
+    if tag == "db2":
+        return getattr(OTHER["db"], e[1])(*e[2])
+    if tag == "db2l":
+        return list(getattr(OTHER["db"], e[1])(*e[2]))
     if tag == "val":
         return "val(%s)" % label(e[1])
     return tag
@@ -117,4 +139,4 @@ def names(e, out=None):
     return out
 
 
-TAGS = {"S", "Sc", "Scu", "A", "FA", "FS", "Q", "Qn", "Qd", "bin", "num", "pow", "m", "mk", "db", "dbl", "val"}
+TAGS = {"db2", "db2l", "Sq", "Aq", "S", "Sc", "Scu", "A", "FA", "FS", "Q", "Qn", "Qd", "bin", "num", "pow", "m", "mk", "db", "dbl", "val"}
